@@ -223,5 +223,22 @@ PROPS["C16"] = {
     "trusted_base": ["sync.Map", "net.Listen / elton GracefulClose"],
 }
 
+PROPS["C15"] = {
+    "suites": [{"name": "proxy", "stateful": True, "seq_marker": "case", "quick": 1200, "thorough": 25000, "thorough_seeds": 3}],
+    "trip_re": "upstream_saw_diff.*|conditional_leaked|partial_replayed|no_304|response_header_missing|status_or_header_changed|upstream_not_contacted",
+    "rule": "proxy: location configuration (rewrites none / '/api/*:/$1' / '/old:/new' / two chained rules; 0-2 added request headers incl. one "
+            "colliding with a client header; 0-2 added response headers incl. one colliding with an upstream header; 0-2 added query "
+            "parameters) x upstream Accept-Encoding unset/gzip/br x cacheable or not; a first request (GET/HEAD/POST/PUT/DELETE, body for "
+            "POST/PUT, 5 paths incl. an escaped blank, 7 raw queries incl. bare flags, duplicates, empty values, a key that the location "
+            "also adds; If-None-Match matching/not, If-Modified-Since, Range, If-Range, multi-valued custom header, Cookie, Authorization, "
+            "Accept-Encoding variants) and a second plain GET, through the real middleware chain AND the real transport to a loopback "
+            "origin that honours ETag (304) and Range (206). Observed: exactly what the origin received, the client's response, the "
+            "request header after the proxy. non-trivial = every request; distinct = distinct histories.",
+    "assumptions": ["PARTIAL: net/http and httputil.ReverseProxy (X-Forwarded-For, hop-by-hop headers, default User-Agent, transparent gzip) are outside: the monitor ignores exactly those headers",
+                    "rewrite rules of the documented wildcard form (literal text with at most a trailing *)",
+                    "an origin answers 206/304 only to requests carrying Range / validators"],
+    "trusted_base": ["net/http, httputil.ReverseProxy, elton proxy and fresh middlewares", "regexp for rewrite patterns outside the modelled forms", "url.Values.Encode for the location's own parameters"],
+}
+
 NOT_APPLICABLE = {}
 HOOK_COMMITS = ["ca43a57", "6332ff2"]
